@@ -51,6 +51,10 @@ func files() map[string]*pbfgen.File {
 	blk := func(raw bool, gs ...pbfgen.Group) pbfgen.Block {
 		return pbfgen.Block{Groups: gs, Enc: pbfgen.Enc{Raw: raw}}
 	}
+	param := func(b pbfgen.Block) pbfgen.Block {
+		b.Granularity, b.LatOffset, b.LonOffset, b.DateGranularity = pbfgen.I32(1000), pbfgen.I64(123456000), pbfgen.I64(-98765000), pbfgen.I32(2000)
+		return b
+	}
 	return map[string]*pbfgen.File{
 		"A-grouped": {Header: pbfgen.StdHeader(), Blocks: []pbfgen.Block{
 			blk(false, dense(1, 2)), blk(false, dense(3)), blk(false, ways(10, 11)), blk(true, rels(20)), blk(false, ways(12), rels(21, 22))}},
@@ -58,6 +62,10 @@ func files() map[string]*pbfgen.File {
 			blk(true, dense(1)), blk(false), blk(false, ways(10, 11, 12)), blk(false, pbfgen.Group{Changesets: []int64{5}}), blk(true, dense(2, 3), rels(20)), blk(false, rels(21))}},
 		"C-no-header": {Blocks: []pbfgen.Block{
 			blk(false, ways(10)), blk(false, dense(1, 2, 3)), blk(true, rels(20, 21)), blk(false, dense(4))}},
+		// per-block parameters stated by some blocks and omitted (= defaults) by later ones:
+		// a resumed scanner starts with fresh decoders, an uninterrupted one does not
+		"E-block-params-come-and-go": {Header: pbfgen.StdHeader(), Blocks: []pbfgen.Block{
+			param(blk(false, dense(1, 2))), param(blk(false, ways(10))), blk(false, dense(3)), blk(false, ways(11), rels(20)), param(blk(true, dense(4))), blk(false, dense(5, 6)), blk(false, dense(7))}},
 		"D-interleaved-kinds": {Header: pbfgen.StdHeader(), Blocks: []pbfgen.Block{
 			blk(false, rels(20)), blk(false, dense(1)), blk(false, ways(10)), blk(false, dense(2)), blk(false, rels(21), ways(11), dense(3))}},
 	}
@@ -103,7 +111,7 @@ func main() {
 			"non-trivial = the stop is not at k=0 and the resumed scan starts at a data block that is not the first file block; distinct = (file,flags,procs,k)")
 		r.Assume("block offsets come from gen/pbfgen's encoder (sum of 4 + header + blob sizes)")
 		fs := files()
-		names := []string{"A-grouped", "B-empty-and-odd", "C-no-header", "D-interleaved-kinds"}
+		names := []string{"A-grouped", "B-empty-and-odd", "C-no-header", "D-interleaved-kinds", "E-block-params-come-and-go"}
 		procs := []int{1, 2, 3, 4, 6, 10, 11, 12}
 		if !r.Quick() {
 			procs = []int{1, 2, 3, 4, 5, 6, 7, 8, 9, 10, 11, 12, 16, 32, 33}
